@@ -5,6 +5,7 @@
 package processor
 
 import (
+	"github.com/free5gc/chf/cdr/cdrType"
 	"github.com/free5gc/chf/internal/cgf"
 	"sync"
 
@@ -22,6 +23,11 @@ func verif_forall[T any](f func(T) bool) bool { return true }
 // verif_preserved: "loop k: preserved n int :: g :: e" - e(n) has the same value at the loop head and
 // at the end of the body for every n with g(n); proved by induction on n (interpreted by govc)
 func verif_preserved[T any](g func(int) bool, e func(int) T) bool { return true }
+
+// specInfo: the consumer identification carried by a record
+func specInfo(r *cdrType.CHFRecord) cdrType.NetworkFunctionInformation {
+	return r.ChargingFunctionRecord.NFunctionConsumerInformation
+}
 
 // SpecSeqOK: the record sequence number is far from the end of its 64-bit range (an assumption about the
 // process lifetime: fewer than 2^63 records are opened). Under it the counter never wraps, so the value
@@ -65,12 +71,17 @@ var _, _ = abmf.GhostRequests, rating.GhostRequests
 //@   requires ue != nil && !verif_held(&chf_context.GetSelf().Mutex)
 //@   requires [C10] SpecSeqOK()
 //@   assert "chfCdr.LocalRecordSequenceNumber = &cdrType.LocalSequenceNumber{": [C10] self.LocalRecordSequenceNumber != 0
+//@   assert "self.LocalRecordSequenceNumber++": [C09] verif_held(&self.Mutex)
+//@   assert "chfCdr.LocalRecordSequenceNumber = &cdrType.LocalSequenceNumber{": [C09] verif_held(&self.Mutex)
 //@   ensures !partialRecord && result1 == nil ==> result0 != nil && result0.ChargingFunctionRecord != nil && result0.Present == 1
 //@   ensures !partialRecord ==> (result1 != nil) == (chargingData.NfConsumerIdentification == nil)
 //@   ensures !partialRecord && result1 == nil ==> result0.ChargingFunctionRecord.ChargingID != nil && result0.ChargingFunctionRecord.ChargingID.Value == int64(chargingData.ChargingId)
 //@   ensures !partialRecord && result1 == nil && sessionId != "" ==> result0.ChargingFunctionRecord.ChargingSessionIdentifier != nil && len(result0.ChargingFunctionRecord.ChargingSessionIdentifier.Value) == len(sessionId)
 //@   ensures !partialRecord && result1 == nil && sessionId != "" ==> forall k int :: 0 <= k && k < len(sessionId) ==> result0.ChargingFunctionRecord.ChargingSessionIdentifier.Value[k] == sessionId[k]
 //@   ensures !partialRecord && result1 == nil && chargingData.NfConsumerIdentification.NFName != "" ==> result0.ChargingFunctionRecord.NFunctionConsumerInformation.NetworkFunctionName != nil && string(result0.ChargingFunctionRecord.NFunctionConsumerInformation.NetworkFunctionName.Value) == chargingData.NfConsumerIdentification.NFName
+//@   ensures [C02] !partialRecord && result1 == nil && chargingData.NfConsumerIdentification.NFIPv4Address != "" ==> specInfo(result0).NetworkFunctionIPv4Address != nil && specInfo(result0).NetworkFunctionIPv4Address.Present == cdrType.IPAddressPresentIPTextV4Address && specInfo(result0).NetworkFunctionIPv4Address.IPTextV4Address != nil && string(*specInfo(result0).NetworkFunctionIPv4Address.IPTextV4Address) == chargingData.NfConsumerIdentification.NFIPv4Address
+//@   ensures [C02] !partialRecord && result1 == nil && chargingData.NfConsumerIdentification.NFIPv6Address != "" ==> specInfo(result0).NetworkFunctionIPv6Address != nil && specInfo(result0).NetworkFunctionIPv6Address.Present == cdrType.IPAddressPresentIPTextV6Address && specInfo(result0).NetworkFunctionIPv6Address.IPTextV6Address != nil && string(*specInfo(result0).NetworkFunctionIPv6Address.IPTextV6Address) == chargingData.NfConsumerIdentification.NFIPv6Address
+//@   ensures [C02] !partialRecord && result1 == nil && chargingData.NfConsumerIdentification.NFFqdn != "" ==> specInfo(result0).NetworkFunctionFQDN != nil && specInfo(result0).NetworkFunctionFQDN.Present == cdrType.NodeAddressPresentDomainName && specInfo(result0).NetworkFunctionFQDN.DomainName != nil && string(*specInfo(result0).NetworkFunctionFQDN.DomainName) == chargingData.NfConsumerIdentification.NFFqdn
 //@   ensures !partialRecord && result1 == nil ==> len(result0.ChargingFunctionRecord.ListOfMultipleUnitUsage) == 0
 //@   ensures partialRecord ==> (result1 == nil) == (ue.Cdr[sessionId] != nil && ue.Cdr[sessionId].ChargingFunctionRecord != nil)
 //@   ensures partialRecord && result1 == nil ==> result0 == ue.Cdr[sessionId] && result0.ChargingFunctionRecord.RecordSequenceNumber != nil
@@ -137,6 +148,7 @@ func specSameQuota(ue *chf_context.ChfUe, old map[int32]int64) bool {
 // subscriber lock is free again on every path (lock obligation).
 //@ func (*Processor).ChargingDataRelease [C09 C10 C11 C12]
 //@   entry
+//@   assert "cdr := ue.Cdr[chargingSessionId]": [C09] verif_held(&ue.CULock)
 //@   requires [C20] factory.SpecValidated(factory.ChfConfig)
 //@   requires [C20] chf_context.GetSelf().AbmfCfg != nil && chf_context.GetSelf().RatingCfg != nil
 //@   ensures result != nil ==> result.Status >= 400 && result.Status < 500
@@ -152,6 +164,7 @@ func specSameQuota(ue *chf_context.ChfUe, old map[int32]int64) bool {
 // partial record that continues it, which then is what the reference designates).
 //@ func (*Processor).ChargingDataUpdate [C09 C10 C11 C12]
 //@   entry
+//@   assert "cdr := ue.Cdr[chargingSessionId]": [C09] verif_held(&ue.CULock)
 //@   requires [C10] SpecSeqOK()
 //@   requires cgf.SpecReady()
 //@   requires [C20] factory.SpecValidated(factory.ChfConfig)
@@ -180,7 +193,7 @@ func specSameQuota(ue *chf_context.ChfUe, old map[int32]int64) bool {
 //@   ensures [C12] result0 != nil ==> result0.InvocationSequenceNumber == chargingData.InvocationSequenceNumber && result0.InvocationTimeStamp != nil
 //@   ensures [C11] chargingData.NfConsumerIdentification == nil ==> result2 != nil && result2.Status == 400
 //@   assert "chargingSessionId = ueId": [C09 C10] verif_held(&ue.CULock)
-//@   assert "seq := self.LocalRecordSequenceNumber": [C09] verif_held(&self.Mutex)
+//@   assert "seq := self.LocalRecordSequenceNumber": [C09 C10] verif_held(&self.Mutex)
 //@   assert "ue.Records = append(": [C02 C10] ue.Cdr[chargingSessionId] == cdr && cdr != nil && cdr.ChargingFunctionRecord != nil
 //@   assert "ue.Cdr[chargingSessionId] = cdr": [C09] verif_held(&ue.CULock)
 //@   assert "ue.Cdr[chargingSessionId] = cdr": [C10] !chargingData.OneTimeEvent ==> ue.Cdr[chargingSessionId] == nil
